@@ -56,17 +56,24 @@ theorem loadHead_ref (H : HashFn) (w : World) (b : Bytes) (hc : Option (Bytes ×
     | none => simp [hp] at h
     | some br =>
       simp only [hp, Option.getD_some] at h ⊢
-      cases ha : aget w.heads br with
-      | none => simp [ha] at h; exact h.1.symm
-      | some raw =>
-        simp only [ha] at h
-        cases hr : readHash raw with
-        | none => simp [hr] at h
-        | some id =>
-          simp only [hr] at h
-          cases hc' : commitAt H w id with
-          | none => simp [hc'] at h
-          | some c => simp [hc'] at h; exact h.1.symm
+      by_cases hz : List.elem (0 : UInt8) br = true
+      · simp only [hz, if_true] at h; cases h
+      · simp only [hz, Bool.false_eq_true, if_false] at h
+        cases ha : aget w.heads br with
+        | none =>
+          simp only [ha] at h
+          split at h
+          · cases h
+          · injection h with h; injection h with h1 _; exact h1.symm
+        | some raw =>
+          simp only [ha] at h
+          cases hr : readHash raw with
+          | none => simp [hr] at h
+          | some id =>
+            simp only [hr] at h
+            cases hc' : commitAt H w id with
+            | none => simp [hc'] at h
+            | some c => simp [hc'] at h; exact h.1.symm
 
 theorem load_ref (H : HashFn) (w : World) (l : Loaded) (h : load H w = some l) : l.ref = headRef w := by
   unfold load at h
